@@ -2,6 +2,9 @@
 import RattrDriver.AstJson
 import RattrModel.Annotations
 import RattrModel.Spec.Honoured
+import RattrModel.Spec.DeclaredSubst
+import RattrModel.DeclaredInline
+import RattrDriver.C04
 
 namespace Rattr.Driver.C11
 open Lean Rattr Rattr.Driver Rattr.Ann
@@ -142,6 +145,39 @@ def handleDecision (payload : Json) : R Json := do
   return Json.mkObj [("model", m),
     ("spec", Json.mkObj [("expectedEntry", Spec.Honoured.expectedEntry decos verdicts),
                          ("allNamed", Spec.Honoured.allNamed decos)])]
+
+def setsJson (u : IrSets) : Json :=
+  Json.mkObj [("gets", jList (u.gets.map nameJson)), ("sets", jList (u.sets.map nameJson)),
+              ("dels", jList (u.dels.map nameJson))]
+
+/-- op `declared_unbind`: decorator arguments + the callee's signature + one call → what the caller inlines
+(model: `parseResults` ; `Swaps.construct` ; `Results.unbindIr`) and the spec's simultaneous substitution. -/
+def handleDeclaredUnbind (payload : Json) : R Json := do
+  let pos ← (← asArr (← field payload "pos")).mapM asLit
+  let kws ← asKws (← field payload "kws")
+  let sig ← C04.parseSig (← field payload "sig")
+  let call ← C04.parseCall (← field payload "call")
+  let callS : CallArgs Str := { args := call.args.map str, kwargs := call.kwargs.map fun (a, b) => (str a, str b) }
+  let si : StandIns Str := { tuple := str "@Tuple", dict := str "@Dict" }
+  let iface := C04.ifaceStr sig.iface
+  let sw := (Swaps.construct si iface callS).1
+  let swJ := jPairList (sw.map fun (a, b) => (a.toS, b.toS))
+  let noTarget : Str → Json := fun _ => Json.null
+  match parseResults pos kws with
+  | .ok ir =>
+    let (u, ds) := inlineDeclared si iface callS ir
+    let spec : Json := match evalArgs pos kws with
+      | .ok (pv, kv) =>
+        Json.mkObj [("wellFormed", Spec.Honoured.WellFormed pv kv),
+                    ("subst", setsJson (Spec.Honoured.substDeclared sw kv))]
+      | _ => Json.null
+    let m := match u with
+      | none => Json.mkObj [("outcome", "never")]
+      | some u => Json.mkObj [("outcome", "ok"), ("ir", setsJson u)]
+    return Json.mkObj [("parse", "ok"), ("declared", irJson noTarget ir), ("swaps", swJ), ("diags", ds.length),
+                       ("model", m), ("spec", spec)]
+  | .fatal f => return Json.mkObj [("parse", "fatal"), ("detail", fatalStr f)]
+  | .crash c => return Json.mkObj [("parse", "crash"), ("detail", crashStr c)]
 
 /-- op `is_name`: the automaton and the spec's identifier predicate on one string. -/
 def handleIsName (payload : Json) : R Json := do
